@@ -21,6 +21,14 @@ def special_data(rng, n):
 
 
 def gen(rng, sc, n):
+    import random
+    lines, meta = _gen(random.Random('C06-directed'), sc, 60)      # covers every known-finding class in every run
+    l2, m2 = _gen(rng, sc, n)
+    meta.update(m2)
+    return lines + l2, meta
+
+
+def _gen(rng, sc, n):
     lines, meta = [], {}
     def add(mt, items, klass):
         l, its = cc.spec_line('rt', mt, items, rng, want_items=True)
